@@ -238,6 +238,41 @@ func FuncName(fn *types.Func) string {
 	return pk + "." + fn.Name()
 }
 
+// constAlias: an unexported named constant declared as another named constant (`ivSize = aes.BlockSize`) -> the
+// spelling of the constant it stands for; patterns written with the original name keep matching.
+var constAlias = map[types.Object]string{}
+
+func indexConstAliases(pk *packages.Package, f *ast.File) {
+	ast.Inspect(f, func(n ast.Node) bool {
+		gd, ok := n.(*ast.GenDecl)
+		if !ok || gd.Tok != token.CONST {
+			return true
+		}
+		for _, sp := range gd.Specs {
+			vs, ok := sp.(*ast.ValueSpec)
+			if !ok || len(vs.Values) != len(vs.Names) {
+				continue
+			}
+			for i, nm := range vs.Names {
+				var ref *ast.Ident
+				switch v := unparen(vs.Values[i]).(type) {
+				case *ast.Ident:
+					ref = v
+				case *ast.SelectorExpr:
+					ref = v.Sel
+				}
+				if ref == nil || ast.IsExported(nm.Name) {
+					continue
+				}
+				if c, ok := pk.TypesInfo.Uses[ref].(*types.Const); ok && pk.TypesInfo.Defs[nm] != nil {
+					constAlias[pk.TypesInfo.Defs[nm]] = objQual(c)
+				}
+			}
+		}
+		return true
+	})
+}
+
 func (p *Prog) indexFuncs(pk *packages.Package) {
 	ctl := pk.PkgPath == ctlPkgPath
 	for _, f := range pk.Syntax {
@@ -245,6 +280,7 @@ func (p *Prog) indexFuncs(pk *packages.Package) {
 		if excludedFile(fname) {
 			continue
 		}
+		indexConstAliases(pk, f)
 		for _, d := range f.Decls {
 			fd, ok := d.(*ast.FuncDecl)
 			if !ok || fd.Body == nil {
